@@ -28,7 +28,7 @@ def http_tables(sc):
 
 
 HTTP_RUN = {"harness": "hhttp", "driver": "httpdrv", "fields": ["cache", "err", "st", "msgs"], "corpus": "http",
-            "quick": {"n": 1500, "shards": 16}, "thorough": {"n": 12000, "shards": 32}}
+            "quick": {"n": 1500, "shards": 16}, "thorough": {"n": 6000, "shards": 32}}
 
 C07_RUN = {"harness": "hhttp7", "driver": "httpdrv", "fields": ["render", "err", "cache", "st", "nb", "offs", "ref"], "corpus": "http7",
            "quick": {"n": 700, "shards": 16}, "thorough": {"n": 6000, "shards": 32}}
